@@ -163,6 +163,38 @@ int main() {
         out << " " << showF(L.delta_conserved(j));
       if (!readonly_same(L, L0, true))
         bad << " ghost-flux-call-modified-primitives-gradients-or-conserved";
+      // the property (reflective clause, hypothesis of the Lean theorem reflective_no_mass_energy):
+      // density and pressure positive and the RECONSTRUCTED velocity towards the wall (extrapolated
+      // with the cell gradient, then Hydro::limit against the mirrored value) below 1.5 sound speeds
+      // (tested with margin: < 1.45) => no mass and no energy passes the wall face
+      {
+        const double rho = L0.primitives(0), P = L0.primitives(4);
+        const double vn = L0.primitives(1 + i);
+        if (rho > 0. && P > 0. && std::isfinite(1. / rho) && std::isfinite(1. / P)) {
+          const double orientation = std::signbit(dx) ? -1. : 1.;
+          const double vface =
+              Hydro::limit(vn + 0.5 * dx * L0.primitive_gradients(1 + i)[i], vn, -vn, 0.5);
+          const double a = std::sqrt(std::max(gamma, 1.00000001) * P / rho);
+          if (orientation * vface < 1.45 * a) {
+            HydroVariables Lw;
+            Lw.copy_all(L0);
+            for (int j = 0; j < 5; ++j)
+              Lw.delta_conserved(j) = 0.;
+            hydro.do_ghost_flux_calculation(i, CoordinateVector<>(0.), Lw, reflective, dx, A, dt);
+            const double v2 = L0.primitives(1) * L0.primitives(1) +
+                              L0.primitives(2) * L0.primitives(2) +
+                              L0.primitives(3) * L0.primitives(3) + vface * vface;
+            const double mscale = rho * (a + std::abs(vface)) * std::abs(A);
+            const double escale = mscale * (a * a / (std::max(gamma, 1.00000001) - 1.) + 0.5 * v2);
+            if (!(std::abs(Lw.delta_conserved(0)) <= 1.e-10 * mscale))
+              bad << " mass-flux-through-reflecting-wall wall-mach=" << orientation * vface / a
+                  << " relative-flux=" << Lw.delta_conserved(0) / mscale;
+            if (!(std::abs(Lw.delta_conserved(4)) <= 1.e-10 * escale))
+              bad << " energy-flux-through-reflecting-wall wall-mach=" << orientation * vface / a
+                  << " relative-flux=" << Lw.delta_conserved(4) / escale;
+          }
+        }
+      }
       for (int j = 0; j < 5; ++j)
         if (!std::isfinite(L.delta_conserved(j))) {
           bad << " ghost-flux-not-finite";
